@@ -43,6 +43,8 @@ pub struct Profile {
     pub a_name: bool,
     /// inline runs may begin with a <br> (a blank line before any content)
     pub lead_br: bool,
+    /// link targets may contain control characters (TAB, LF, DEL, U+0001, U+0085)
+    pub href_controls: bool,
 }
 
 impl Profile {
@@ -76,6 +78,7 @@ impl Profile {
             ol_starts: true,
             a_name: false,
             lead_br: false,
+            href_controls: false,
         }
     }
     pub fn no_tables(mut self) -> Profile {
@@ -239,6 +242,18 @@ impl<'a> DocGen<'a> {
                 for _ in 0..self.rng.range(2, 12) {
                     if self.rng.chance(1, 2) {
                         s.push(*self.rng.pick(&['テ', 'ス', 'ト', 'ペ', 'ジ']));
+                    } else {
+                        s.push((b'0' + self.rng.below(10) as u8) as char);
+                    }
+                }
+                s
+            }
+            _ if self.p.href_controls => {
+                // characters without a display width inside a target long enough to be wrapped
+                let mut s = format!("/{}/", n);
+                for _ in 0..self.rng.range(4, 30) {
+                    if self.rng.chance(1, 6) {
+                        s.push(*self.rng.pick(&['\t', '\u{7f}', '\u{1}', '\u{85}', '\n', '\u{200b}']));
                     } else {
                         s.push((b'0' + self.rng.below(10) as u8) as char);
                     }
